@@ -13,7 +13,9 @@ fv = getattr(importlib.import_module(mod), fn)()
 obs = [o for o in fv.obs if sub in o.clause]
 print(f"{len(fv.obs)} obligations generated in {time.time()-t:.1f}s; solving {len(obs)}")
 with mp.get_context("fork").Pool(16) as pool:
-    res = pool.map(_solve, [(o.smt2, tmo, False, []) for o in obs], chunksize=1)
+    res = pool.map(_solve, [(o.smt2, tmo, False, []) for o in obs if o.smt2], chunksize=1)
+it = iter(res)
+res = [next(it) if o.smt2 else ("unsat", None, 0.0, "simplify") for o in obs]
 for o, r in zip(obs, res):
     want = "sat" if o.expect_sat else "unsat"
     if r[0] != want or sub:
